@@ -4,6 +4,7 @@ CONSTANTS
   R = 4
   Gaps = {1, 2}
   Kinds = {"zero", "own", "stale"}
+  ScrapeSets = {}
   MaxClk = 14
   OOOBack = {1, 2, 3}
   Snap = TRUE
